@@ -253,3 +253,61 @@ Proof.
   - unfold default_fuel. lia.
   - unfold reader_new, bw_new. cbn [rbw cap]. lia.
 Qed.
+
+(* ---------- corollaries ---------- *)
+Corollary schedule_independent : forall input sch1 sch2 cap1 cap2,
+  wf_bytes input -> no_fail sch1 -> no_fail sch2 -> need input <= cap1 -> need input <= cap2 ->
+  run_stream cap1 sch1 input = run_stream cap2 sch2 input.
+Proof. intros. rewrite !stream_eq_tok by assumption. reflexivity. Qed.
+
+(* the requirement is never more than the whole input plus the byte that never comes *)
+Lemma item_need_le start s : inee (item start s) <= S (length s).
+Proof.
+  destruct s as [|c s0]; [cbn; lia|]. cbn [item].
+  destruct (is_ws c); [cbn [inee length]; lia|].
+  destruct (b_is c 35).
+  { destruct (find_from _ s0 0) as [k|] eqn:E; [apply find_from_bounds in E|]; cbn [inee length]; lia. }
+  destruct (b_is c 123); [cbn [inee length]; lia|]. destruct (b_is c 125); [cbn [inee length]; lia|].
+  destruct (b_is c 34).
+  { destruct (rq_scan s0 0) as [i|o] eqn:E; [apply rq_scan_bounds with (n := length s0) in E; [|lia]|]; cbn [inee length]; lia. }
+  assert (Hu : forall s, s <> [] -> inee (unq_item s) <= S (length s)).
+  { intros s Hs. unfold unq_item. destruct s as [|a s1]; [congruence|]. cbn [tl].
+    destruct (find_from is_boundary s1 0) as [k|] eqn:E; [apply find_from_bounds in E|]; cbn [inee length]; lia. }
+  assert (Ho : forall a b, inee (op_item s0 a b) <= S (length (c :: s0))).
+  { intros a b. unfold op_item. destruct s0 as [|c3 s1]; [cbn; lia|]. destruct (b_is c3 61); cbn [inee length]; lia. }
+  destruct (b_is c 64).
+  { destruct s0 as [|c2 s1]; [cbn; lia|]. destruct (b_is c2 91).
+    - destruct (find_from _ s1 0) as [k|] eqn:E; [apply find_from_bounds in E|]; cbn [inee length]; lia.
+    - apply Hu. discriminate. }
+  destruct (b_is c 61); [apply Ho|]. destruct (b_is c 60); [apply Ho|]. destruct (b_is c 33); [apply Ho|].
+  destruct (b_is c 63); [apply Ho|]. destruct (b_is c 62); [apply Ho|].
+  destruct (b_is c 239 && start).
+  { destruct s0 as [|b1 [|b2 s3]]; [cbn; lia|cbn; lia|]. destruct (b_is b1 187 && b_is b2 191); [cbn [inee length]; lia|].
+    specialize (Hu (c :: b1 :: b2 :: s3) ltac:(discriminate)). destruct (unq_item _); cbn [bump_item inee length] in *; lia. }
+  apply Hu. discriminate.
+Qed.
+
+Lemma tk_need_le : forall n start s, length s <= n -> snd (tk start s) <= S (length s).
+Proof.
+  induction n as [|n IH]; intros start s Hn; rewrite tk_unfold; pose proof (item_need_le start s) as Hi;
+    destruct (item start s) as [s' k|t s' k|t k|k|k0 k] eqn:E; cbn [inee snd] in *; try lia.
+  - apply item_skip_shrinks in E. lia.
+  - pose proof (item_skip_shrinks _ _ _ _ E). rewrite snd_bump_max. specialize (IH false s' ltac:(lia)). lia.
+Qed.
+
+Lemma rr_need_le : forall n start s, length s <= n -> snd (rr start s) <= S (length s).
+Proof.
+  induction n as [|n IH]; intros start s Hn; rewrite rr_unfold; pose proof (tk_need_le (length s) start s (le_n _)) as Hi;
+    destruct (tk start s) as [[t s'| |k] nd] eqn:E; cbn [snd] in *; try lia.
+  - apply tk_tok_shrinks with (n := length s) in E; lia.
+  - pose proof (tk_tok_shrinks (length s) _ _ _ _ _ (le_n _) E). specialize (IH false s' ltac:(lia)).
+    destruct (rr false s') as [[l rem] m]. cbn [snd] in *. lia.
+Qed.
+
+Theorem need_le_length input : need input <= S (length input).
+Proof. unfold need, ref_tokens. apply (rr_need_le (length input)). lia. Qed.
+
+(* hence a buffer one byte larger than the input always works *)
+Corollary stream_eq_slice_big : forall input sch capv,
+  wf_bytes input -> no_fail sch -> length input < capv -> run_stream capv sch input = run_slice input.
+Proof. intros. apply stream_eq_slice; try assumption. pose proof (need_le_length input). lia. Qed.
